@@ -152,6 +152,8 @@ namespace cgi {
 			output_written_ = 0;
 			eof_callback_ = false;
 			input_parser_.reset();
+			// the request line is not a header field: no quoted strings or comments there
+			input_parser_.quoting(false);
 
 			env_.clear();
 			pool_.clear();
@@ -291,6 +293,7 @@ namespace cgi {
 							env_.add("SERVER_PROTOCOL",pool_.add(http_protocol));
 							is_http_11_ = strcmp(http_protocol,"HTTP/1.1") == 0;
 							first_header_observerd_=true;
+							input_parser_.quoting(true);
 							BOOSTER_INFO("cppcms_http") << request_method_ <<" " << request_uri_;
 						}
 						else {
